@@ -114,22 +114,21 @@ end CDV
 namespace CDV
 namespace Spec
 
-inductive Kind | posOnly | posOrKw | varPos | kwOnly | varKw
-deriving DecidableEq, Repr
-
 /-- CPython's binding of `co_varnames` to parameters, in `inspect.signature` order -/
+def sigCore (argc pos kw : Nat) (varnames : List PStr) (varargs varkw : Bool) : List (PStr × Kind) :=
+  let positional := (varnames.take pos).map (·, Kind.posOnly) ++ ((varnames.take argc).drop pos).map (·, Kind.posOrKw)
+  let kwonly := ((varnames.drop argc).take kw).map (·, Kind.kwOnly)
+  let va := if varargs then ((varnames.drop (argc + kw)).take 1).map (·, Kind.varPos) else []
+  let vk := if varkw then ((varnames.drop (argc + kw + (if varargs then 1 else 0))).take 1).map (·, Kind.varKw) else []
+  positional ++ va ++ kwonly ++ vk
+
 def signature (v : Ver) : RawCode → Option (List (PStr × Kind))
   | .mk argc pos kw _ _ fl _ _ _ _ _ _ varnames _ _ _ =>
     let pos := if v.hasPosOnly then pos else 0
     let varargs := fl.testBit 2
     let varkw := fl.testBit 3
     let n := argc + kw + (if varargs then 1 else 0) + (if varkw then 1 else 0)
-    if varnames.length < n ∨ argc < pos then none else
-    let positional := (varnames.take argc).zipIdx.map fun (s, i) => (s, if i < pos then Kind.posOnly else Kind.posOrKw)
-    let kwonly := ((varnames.drop argc).take kw).map fun s => (s, Kind.kwOnly)
-    let va := if varargs then [((varnames.getD (argc + kw) ⟨"", true⟩), Kind.varPos)] else []
-    let vk := if varkw then [((varnames.getD (argc + kw + (if varargs then 1 else 0)) ⟨"", true⟩), Kind.varKw)] else []
-    some (positional ++ va ++ kwonly ++ vk)
+    if varnames.length < n ∨ argc < pos then none else some (sigCore argc pos kw varnames varargs varkw)
 
 /-! ### CPython's line-table assemblers, as functions from abstract line programs to table rows.
     An event is `(byte delta, line delta)`; on 3.10 the line may be absent (`none`). -/
